@@ -30,10 +30,7 @@ L0_POST = ['event_->_particles_.size == __CPROVER_old(event_->_particles_.size) 
 
 # contracts that are used by callers but not (yet) enforced on their bodies: reported as assumptions, never as proved
 ASSUMED = {
-    'decay0_beta': 'rejection loop over a spectrum shape built from fermi()/tgold(): needs the interpolation lemma a <= a+(b-a)u <= b (undecided by SAT within budget)',
-    'decay0_beta1': 'as decay0_beta',
-    'decay0_beta2': 'as decay0_beta',
-    'decay0_beta_1fu': 'as decay0_beta',
+    # (empty since the beta samplers are enforced through tools/betak.py)
 }
 # per-kernel extra cbmc flags.  PbAtShell: the vacancy loops run at most Lhole/Mhole <= 3 times; unwinding assertions make
 # the bounded unrolling complete (a larger trip count fails the unwinding assertion, it is not silently cut)
